@@ -10,7 +10,7 @@ def checkUniqueArgs : List Argument → List Name → List RErr
     (if seen.count a.name = 1 then [errAt (str "There can be only one argument named " ++ dq a.name ++ str ".") a.pos] else [])
       ++ checkUniqueArgs rest (a.name :: seen)
 
-def uniqueArgumentNamesStep (_ : Schema) (_ : QueryDoc) (e : Event) : List RErr :=
+def uniqueArgumentNamesStep (_ : SV) (_ : QueryDoc) (e : Event) : List RErr :=
   match e.p with
   | .field f _ _ => checkUniqueArgs f.args []
   | .directive d _ _ _ => checkUniqueArgs d.args []
